@@ -193,19 +193,21 @@ REGISTRY["C04"] = {
 CV = ["lib/src/protocol/mux/converter.rs", "lib/src/protocol/mux/serializer.rs", "lib/src/protocol/mux/parser.rs"]
 TRACING_STUBS = ["tracing::__macro_support::__is_enabled -> false", "tracing_core::callsite::DefaultCallsite::register -> Interest::never", "tracing_core::event::Event::dispatch -> no-op"]
 REGISTRY["C14"] = {
+    "engine": "kani+mir",
     "technique": "bounded model checking (Kani/CBMC, SAT) of the DATA/HEADERS emission arithmetic of H2BlockConverter, stream-id allocation and settings clamps",
     "level_text": "CBMC decides, for every flow-control window (i32), every legal SETTINGS_MAX_FRAME_SIZE and every chunk length up to 2^30, that one DATA emission step of the real H2BlockConverter sends exactly min(len, window, max_frame_size) bytes, never more than either limit, decrements the window by exactly that, stalls iff the window is <= 0; that a header block is split into HEADERS+CONTINUATION frames each <= max_frame_size with END_HEADERS/END_STREAM on the right frames; that next_stream_id issues only legal, increasing, role-parity ids and stays exhausted; that advertised settings are clamped to RFC bounds and the emitted SETTINGS frame parses back. Bounded single steps, not a proof.",
     "level_note": "One converter step at a time; the caller's min(stream, connection) window selection and window bookkeeping in ConnectionH2::write_streams, WINDOW_UPDATE handling, MAX_CONCURRENT_STREAMS enforcement and HPACK table size live in ConnectionH2 (HashMap + sockets) and are outside the claim.",
     "rule": "C14: one harness per emission arm / allocator / clamp.",
     "trusted_base": ["tracing (used by loona-hpack) switched off by three Kani stubs"],
     "assumptions": ["max_frame_size in [16384, 2^24-1] (sozu validates the peer's SETTINGS_MAX_FRAME_SIZE before it reaches the converter)", "a chunk's (start,len) does not wrap u32 (it lives inside a kawa buffer)"],
-    "residual": "ConnectionH2::write_streams window selection (min of stream and connection window) and post-write decrement, handle_window_update_frame / update_initial_window_size overflow handling, queue_window_update coalescing, MAX_CONCURRENT_STREAMS, HPACK dynamic table size, replenishment policy over time.",
+    "residual": "ConnectionH2::write_streams window selection (min of stream and connection window) and post-write decrement, update_initial_window_size, queue_window_update coalescing, MAX_CONCURRENT_STREAMS, HPACK dynamic table size, replenishment policy over time.",
     "obligations": [
         K("c14::c14_data_budget_and_split", "window: all i32; max_frame_size: 16384..2^24-1; chunk (start,len) symbolic up to 2^30; one call; unwind 12",
           "sent == min(len, max(window,0), max_frame_size); sent <= window and <= max_frame_size; window' == window - sent; nothing emitted iff window <= 0 and then the chunk is returned whole to the front; frame header == DATA/this stream/payload_len == queued bytes", CV, stubs=TRACING_STUBS, min_covers=5),
         K("c14::c14_headers_split_small_frames", "10-byte header block (symbolic bytes), max_frame_size 3 and 4, END_STREAM symbolic; unwind 12",
           "every HEADERS/CONTINUATION payload <= max_frame_size; concatenation == block; END_HEADERS only on the last, END_STREAM only on the first", CV, stubs=TRACING_STUBS),
         K("c14::c14_headers_split_exact_and_larger", "same with max_frame_size 10 and 11 (single frame)", "same", CV, stubs=TRACING_STUBS),
+        M("c14_window_update_rx", "whole ConnectionH2::handle_window_update_frame (64 blocks), window / increment / lookups symbolic", "connection and stream send windows: stored value == old + increment, never after an i32 overflow (overflow => goaway / reset_stream event), a window re-opening from <= 0 arms the writer and only then", ["lib/src/protocol/mux/h2.rs"], prop="c14"),
         K("c14::c14_stream_id_allocation", "all u32 watermarks, both roles, two successive calls; unwind 3",
           "issued id <= 2^31-1, strictly increasing, parity by role from an even watermark, None is final", ["lib/src/protocol/mux/h2.rs"], min_covers=2),
         K("c14::c14_connection_config_clamps", "all u32 triples / optional window; unwind 3",
@@ -304,7 +306,7 @@ REGISTRY["C07"] = {
     "engine": "mir",
     "technique": "symbolic execution of the MIR of ConfigState::update_*_listener into SMT (z3 + cvc5): write events vs. Err return paths",
     "level_text": "For the four private listener-patch functions, every path of the real compiled MIR is encoded (guards merged at joins) with the patch fully symbolic and all callees uninterpreted; z3 and cvc5 both decide that no path returning Err contains a store through the listener reference (validate-then-mutate), that each store copies the same-named patch field and only when it is Some, and that no patch field is dropped. This is the whole function body, not a sample of patches; it is bounded only by loop unrolling (2) and by treating callees as arbitrary.",
-    "level_note": "Certificate add/replace partial effects (x509 + nested HashMap), the master's hash_state no-op check and worker-side notify-after-error are outside the claim. Aliasing between the listener reference and other places is assumed absent (it is a fresh get_mut result).",
+    "level_note": "Also run on the worker-side HttpListener / HttpsListener::update_config (stores into self.config). Certificate add/replace partial effects (x509 + nested HashMap), the master's hash_state no-op check and worker-side notify-after-error are outside the claim. Aliasing between the listener reference and other places is assumed absent (it is a fresh get_mut result).",
     "rule": "C07: one obligation per update_*_listener function.",
     "trusted_base": ["field-name tables parsed from command/src/proto/command.rs (prost output, declaration order == MIR field index)"],
     "assumptions": ["uninterpreted callees do not write the listener unless they are handed a &mut into it (then they count as a write)"],
@@ -318,6 +320,10 @@ REGISTRY["C07"] = {
           listener_struct="TcpListenerConfig", patch_struct="UpdateTcpListenerConfig"),
         M("c07_update_udp_listener_atomic", _c07, _c07claim, ["command/src/state.rs"], prop="c07_atomic", mode="atomic", fn_suffix="::update_udp_listener",
           listener_struct="UdpListenerConfig", patch_struct="UpdateUdpListenerConfig"),
+        M("c07_worker_http_listener_patch_atomic", _c07, "HttpListener::update_config (worker side): no store into self.config on any path that returns Err, stores copy the same-named patch field only when it is Some (the live listener cannot drift from the view on a rejected patch)", ["lib/src/http.rs"], prop="c07_atomic", mode="atomic", crate="lib", fn_suffix="::update_config", sig="&mut http::HttpListener",
+          self_field="config", self_struct="HttpListener", self_struct_path="lib/src/http.rs", listener_struct="HttpListenerConfig", patch_struct="UpdateHttpListenerConfig", replay_test="c07_worker"),
+        M("c07_worker_https_listener_patch_atomic", _c07, "same for HttpsListener::update_config", ["lib/src/https.rs"], prop="c07_atomic", mode="atomic", crate="lib", fn_suffix="::update_config", sig="&mut https::HttpsListener",
+          self_field="config", self_struct="HttpsListener", self_struct_path="lib/src/https.rs", listener_struct="HttpsListenerConfig", patch_struct="UpdateHttpsListenerConfig", replay_test="c07_worker"),
     ],
 }
 
@@ -368,7 +374,7 @@ REGISTRY["C08"] = {
     "assumptions": ["a call to push_queue is a final answer (WorkerResponse::ok / error / ok_with_content); Processing notices are emitted elsewhere"],
     "residual": "per-proxy notify implementations, master-only verbs reaching a worker, worker view == master view as whole states, routing/listening behaviour matching the view.",
     "obligations": [
-        M("c08_notify_answers_once_or_delegates", "whole function (217 blocks), loops unrolled 2x, 11 answering closures analysed separately", "no path queues two answers of its own; every returning path queues an answer or delegates to notify_proxys; never delegates twice", SV, prop="c08", which="notify"),
+        M("c08_notify_answers_once_or_delegates", "whole function (217 blocks), loops unrolled 2x, 11 answering closures analysed separately", "no path queues two answers of its own; every returning path queues an answer or delegates to notify_proxys; never delegates twice; a verb answered here falls through to notify_proxys only if notify_proxys has nothing to answer for it", SV, prop="c08", which="notify"),
         M("c08_notify_proxys_at_most_one_answer", "whole function (201 blocks); destination flags symbolic under the routing contract", "at most one final answer per path; zero answers only without destination and without listener special case", SV, prop="c08", which="notify_proxys"),
         K("c08::c08_destinations_listener_and_worker_level_verbs", "the 12 listener verbs + 9 worker-level verbs (default payloads, symbolic scalars); unwind 3", "no proxy destination (otherwise they would be answered twice)", ["command/src/request.rs"]),
         K("c08::c08_destinations_proxy_verbs", "the 21 proxy verbs; unwind 3", "frontend/certificate verbs -> exactly their proxy kind; cluster/backend/health/stop/status -> all four", ["command/src/request.rs"]),
